@@ -97,11 +97,12 @@ def explore(
                                    {"observed": diff[1], "expected": diff[2]})
                             break
                 if bad is None and invariant is not None:
-                    for s in impls:
-                        msg = invariant(s, hist + [op])
-                        if msg:
-                            bad = ({"clause": msg, "op": op[0], "impl": s.name}, {})
-                            break
+                    msgs = [(s.name, invariant(s, hist + [op])) for s in impls]
+                    failing = [(n, m) for n, m in msgs if m]
+                    if failing:
+                        same = len(failing) == len(impls) and len({m for _, m in failing}) == 1
+                        bad = ({"clause": failing[0][1], "op": op[0],
+                                "impl": "all" if same else failing[0][0]}, {"per_impl": msgs})
                 if bad is not None:
                     sig, detail = bad
                     if tag is not None:
